@@ -115,7 +115,13 @@ def find (l : List α) (p : α → Bool) : Option α := l.find? p
 def iter_any (l : List α) (p : α → Bool) : Bool := l.any p
 def iter_all (l : List α) (p : α → Bool) : Bool := l.all p
 def is_empty (l : List α) : Bool := l.isEmpty
-def len (l : List α) : Nat := l.length
+class RLen (c : Type) where
+  len : c → Nat
+/-- `Vec::len`, `<[T]>::len` -/
+instance (priority := low) {α : Type} : RLen (List α) := ⟨List.length⟩
+/-- `str::len`: the length in bytes of the UTF-8 encoding -/
+instance : RLen (List Char) := ⟨Semver.utf8Len⟩
+def len {c : Type} [RLen c] (l : c) : Nat := RLen.len l
 def first (l : List α) : Option α := l.head?
 /-- `Iterator::next` on a `let mut` iterator: the item and the advanced iterator -/
 def next (l : List α) : Option α × List α :=
@@ -156,6 +162,32 @@ instance : RAsU64 Nat := ⟨fun x => x⟩
 /-- `x as u64` for a signed `x` (no wider than 64 bits): sign extension, i.e. the value modulo 2^64 -/
 instance : RAsU64 Int := ⟨fun x => (x % 18446744073709551616).toNat⟩
 def as_u64 [RAsU64 α] (x : α) : Nat := RAsU64.as_u64 x
+
+/-! ### strings as byte sequences: offsets -/
+
+def charIndicesFrom (n : Nat) : List Char → List (Nat × Char)
+  | [] => []
+  | c :: cs => (n, c) :: charIndicesFrom (n + c.utf8Size) cs
+/-- `str::char_indices`: each character with the byte offset at which it starts -/
+def char_indices (s : List Char) : List (Nat × Char) := charIndicesFrom 0 s
+/-- `DoubleEndedIterator::next_back` on a fresh iterator: the last item -/
+def next_back (l : List α) : Option α := l.getLast?
+/-- `Option::map_or` -/
+def map_or (o : Option α) (d : β) (g : α → β) : β :=
+  match o with
+  | some a => g a
+  | none => d
+/-- `a.as_ptr() as usize - b.as_ptr() as usize` where `a` is a tail slice of the string `b` (every `&str` the
+parsers hand around is a tail of the original input): the byte offset of `a` in `b` -/
+def ptr_diff (a b : List Char) : Nat := Semver.utf8Len b - Semver.utf8Len a
+/-- `miette::SourceSpan` as built by `(offset, len).into()` -/
+structure SourceSpan where
+  offset : Nat
+  len : Nat
+instance : RInto (Nat × Nat) SourceSpan := ⟨fun p => ⟨p.1, p.2⟩⟩
+def span_offset (s : SourceSpan) : Nat := s.offset
+/-- `String::from(&str)` -/
+instance : RInto (List Char) (List Char) := ⟨id⟩
 
 /-! ### `Result`, `str::parse::<u64>`, `char` classes -/
 
